@@ -16,9 +16,9 @@ fn plans(_t: Tier) -> Vec<&'static str> {
 
 fn alphabet(_plan: &str, v: &str, t: Tier) -> Alphabet {
     if !v.is_empty() {
-        return Alphabet { sizes: vec![48], sems: vec![Sem::Default, Sem::from_name(v)], gc_kinds: vec![false, true], bursts: vec![(264, 100, 2)], two_mutators: false, pins: false, cross_writes: false, fields: 1 };
+        return Alphabet { sizes: vec![48], sems: vec![Sem::Default, Sem::from_name(v)], gc_kinds: vec![false, true], bursts: vec![(264, 100, 2)], eph_chains: vec![], two_mutators: false, pins: false, cross_writes: false, fields: 1 };
     }
-    Alphabet { sizes: vec![40, 264, 81920], sems: vec![Sem::Default], gc_kinds: vec![false, true], bursts: vec![], two_mutators: t == Tier::Thorough, pins: false, cross_writes: true, fields: 2 }
+    Alphabet { sizes: vec![40, 264, 81920], sems: vec![Sem::Default], gc_kinds: vec![false, true], bursts: vec![], eph_chains: vec![], two_mutators: t == Tier::Thorough, pins: false, cross_writes: true, fields: 2 }
 }
 
 fn depth(plan: &str, v: &str, t: Tier) -> usize {
